@@ -35,8 +35,12 @@ def items_path(kind):
     return {"data3d": 9, "emg": 4, "force3d": 6, "platdata": 4, "platcalib": 1, "data2d": 6, "calib": 6, "optical": 1, "events": 2}[kind]
 
 
+va_override = []      # (field, value) the ORIGINAL must carry too when a mutation picked a large base value
+
+
 def mutate(kind, v, rng):
     """returns (v', what) with exactly one thing changed; v' stays valid"""
+    del va_override[:]
     v = copy.deepcopy(v)
     ip = items_path(kind)
     items = v[ip]
@@ -101,7 +105,13 @@ def mutate(kind, v, rng):
         elif kind == "calib" and k == 1:
             v[k] = (x + 1) % 4
         elif (kind, k) in (("data3d", 2), ("emg", 0), ("force3d", 0), ("platdata", 0), ("data2d", 2)):
-            v[k] = x + 1 if x < 1000 else x - 1
+            # an integer header field changes by ONE - also where the value is large (integers are exact: 16777217 is not
+            # 16777216, 2**31 - 1 is not 2**31 - 2, whatever a float comparison would say)
+            if rng.random() < 0.4:
+                x = rng.choice([2 ** 24, 2 ** 24 + 1, 2 ** 31 - 2, -2 ** 31 + 1, 2 ** 30 + 1, -(2 ** 25) - 1])
+                v[k] = x
+                va_override.append((k, x))
+            v[k] = x + 1 if x < 2 ** 31 - 1 else x - 1
         else:
             v[k] = far(x)
         return v, f"scalar[{k}]"
@@ -281,6 +291,9 @@ def run(ctx):
         if mode == "changed":
             try:
                 vb, what = mutate(kind, va, rng)
+                for k, x in va_override:          # the pair differs by one at a large integer: the original gets the base value
+                    va = copy.deepcopy(va)
+                    va[k] = x
             except Exception:
                 continue
         else:
